@@ -18,7 +18,7 @@ import (
 func init() {
 	props["C03"] = propC03
 	metas["C03"] = propMeta{
-		Text:      "Decides structural necessary conditions of the try/catch/finally mechanism, each of which was found violated with a failing program: (finalizer-before-return) the return statement's compiler emits OpFinalizer before OpReturn on every path on which the try depth is not -1; (finalizer-before-jump) break / continue emit OpFinalizer with the loop's try depth + 1 before the jump whenever the loop's try depth differs from the current one; (counter-balance) the compile-time try depth is decremented on every successful path after it was incremented; (try-end-pop) the instruction that ends a try statement pops the consumed handler when nothing is pending; (pending-err-per-handler) the error parked while a finally / catch block runs lives in a per-handler slot, so a try statement nested in that block cannot lose it; (handler-active) a frame is handed to the handler switch only after hasActiveHandler succeeded for that frame; (throw-reentry) the unwinding routine is not re-entered from its own callees; (loop-record-current) the loop record consulted by break / continue is filled from the current depths on every path; (active-skips-all) the active-handler test loops over the handler list; (handler-consume) entering catch / finally clears the handler's positions. Does NOT decide that finally runs exactly once for every nesting, exit kind and activation history, nor which outcome wins - that needs an exploration of the handler protocol against an independent semantics (a different technique family; see DESIGN.md section 4). 'other'.",
+		Text:      "Decides structural necessary conditions of the try/catch/finally mechanism, each of which was found violated with a failing program: (finalizer-before-return) the return statement's compiler emits OpFinalizer before OpReturn on every path on which the try depth is not -1; (finalizer-before-jump) break / continue emit OpFinalizer with the loop's try depth + 1 before the jump whenever the loop's try depth differs from the current one; (counter-balance) the compile-time try depth is decremented on every successful path after it was incremented; (try-end-pop) the instruction that ends a try statement pops the consumed handler when nothing is pending; (pending-err-per-handler) the error parked while a finally / catch block runs lives in a per-handler slot, so a try statement nested in that block cannot lose it; (handler-active) a frame is handed to the handler switch only after hasActiveHandler succeeded for that frame; (throw-reentry) the unwinding routine is not re-entered from its own callees; (loop-record-current) the loop record consulted by break / continue is filled from the current depths on every path; (active-skips-all) the active-handler test loops over the handler list; (handler-consume) entering catch / finally clears the handler's positions; (finalizer-walk-bounded) the finalizer's walk over consumed handlers tests its bound on every step. Does NOT decide that finally runs exactly once for every nesting, exit kind and activation history, nor which outcome wins - that needs an exploration of the handler protocol against an independent semantics (a different technique family; see DESIGN.md section 4). 'other'.",
 		Note:      trustedNote,
 		Technique: "static analysis: must-pass-through and guard rules over the compiler's emitters of OpFinalizer / OpReturn / OpJump, dominance and value-flow rules over the VM's handler list",
 		DesignRef: "DESIGN.md sections 3 and 4, C03",
@@ -36,6 +36,8 @@ func propC03(c *Ctx) {
 	ruleActiveSkipsAll(c, ras)
 	rhc := c.Rule("handler-consume", "entering a catch block clears the handler's catch position and entering a finally block clears both positions on every path on which the frame has a handler: an error thrown inside the block is not delivered to the same statement again", 3)
 	ruleHandlerConsume(c, rhc)
+	rfw := c.Rule("finalizer-walk-bounded", "the walk of OpFinalizer over consumed handlers tests its bound on every step: handlers of the try statements that enclose the loop being left are never touched", 1)
+	ruleFinalizerWalkBounded(c, rfw)
 	rcb := c.Rule("counter-balance", "the compile-time try depth (and every other nesting counter) is decremented on every successful path after it was incremented: later statements of the same compilation see the true depth", 2)
 	ruleCounterBalance(c, rcb)
 	rtp := c.Rule("try-end-pop", "the instruction that ends a try statement pops the statement's consumed handler when neither an error nor a return is pending: try statements that already completed have no influence on later ones", 1)
@@ -276,22 +278,49 @@ func ruleFinalizerBeforeJump(c *Ctx, rule string) {
 				key += fmt.Sprintf(" #%d", k)
 			}
 			// every acyclic path from the function's entry to the jump either passes an
-			// emission of OpFinalizer whose operand is the loop's try depth + 1, or has
+			// emission of OpFinalizer whose operand is 1 + the loop's remembered depths, or has
 			// compared every remembered counter with its current value and found it equal
 			finBlocks := map[*ssa.BasicBlock]bool{}
 			for _, b := range fn.Blocks {
 				for _, x := range b.Instrs {
 					if fc, ok := emitsOp(l, x, emit, opFin); ok && len(fc.Call.Args) >= 4 {
+						// the operand: 1 + the sum of the counters the loop remembered (the
+						// handlers of the try statements around the loop - those whose body
+						// and those whose finally block encloses it - keep their places)
 						okOperand := false
 						for _, y := range b.Instrs {
 							st, isSt := y.(*ssa.Store)
 							if !isSt {
 								continue
 							}
-							if bo, isBo := st.Val.(*ssa.BinOp); isBo && bo.Op == token.ADD && isLoad(bo.X, modPath, "loopStmts", fLast) {
-								if k, isK := constInt64(bo.Y); isK && k == 1 {
-									okOperand = true
+							var leaves []ssa.Value
+							var flat func(v ssa.Value, d int)
+							flat = func(v ssa.Value, d int) {
+								if bo, isBo := v.(*ssa.BinOp); isBo && bo.Op == token.ADD && d < 4 {
+									flat(bo.X, d+1)
+									flat(bo.Y, d+1)
+									return
 								}
+								leaves = append(leaves, v)
+							}
+							flat(st.Val, 0)
+							if len(leaves) != len(required)+1 {
+								continue
+							}
+							ones, fields := 0, map[int]int{}
+							for _, lf := range leaves {
+								if k, isK := constInt64(lf); isK && k == 1 {
+									ones++
+									continue
+								}
+								for _, p := range required {
+									if isLoad(lf, modPath, "loopStmts", p.h) {
+										fields[p.h]++
+									}
+								}
+							}
+							if ones == 1 && len(fields) == len(required) {
+								okOperand = true
 							}
 						}
 						if okOperand {
@@ -600,4 +629,46 @@ func ruleHandlerConsume(c *Ctx, rule string) {
 	}
 	check(sc, "catch", fCatch)
 	check(sf, "finally", fCatch, fFin)
+}
+
+// ---- C03/finalizer-walk-bounded -----------------------------------------------------------------------------------------------
+// OpFinalizer(upto) runs / drops the handlers with index >= upto only: the
+// handlers below belong to try statements that enclose the loop being left (or
+// the statement being returned from) and stay.  The walk that drops consumed
+// handlers therefore tests its bound on every step: the comparison with the
+// `upto` parameter lies on the cycle of the function's control-flow graph (or,
+// written without a loop, the function pops at most once).  A bound tested only
+// on entry lets the walk continue into the enclosing statements' handlers: the
+// enclosing finally block runs early and again at its proper place.
+func ruleFinalizerWalkBounded(c *Ctx, rule string) {
+	l := c.L
+	ff := l.Method(modPath, "errHandlers", "findFinally")
+	if !c.Anchor(rule, "errHandlers.findFinally", ff != nil && len(ff.Params) == 2) {
+		return
+	}
+	upto := ff.Params[1]
+	onCycle := func(b *ssa.BasicBlock) bool {
+		for _, s := range b.Succs {
+			if s == b || blockReaches(s, b) {
+				return true
+			}
+		}
+		return false
+	}
+	hasLoop, boundInLoop := false, false
+	for _, b := range ff.Blocks {
+		if !onCycle(b) {
+			continue
+		}
+		hasLoop = true
+		iff, ok := b.Instrs[len(b.Instrs)-1].(*ssa.If)
+		if !ok {
+			continue
+		}
+		if derivesFrom(iff.Cond, func(v ssa.Value) bool { return v == ssa.Value(upto) }, 4) {
+			boundInLoop = true
+		}
+	}
+	c.Check(rule, "errHandlers.findFinally | walk over consumed handlers", l.Pos(ff.Pos()), !hasLoop || boundInLoop, "the bound is tested on every step of the walk",
+		"the walk that drops consumed handlers does not compare with its bound inside the loop: after a consumed handler it continues below the bound into the handlers of the try statements that enclose the loop - their finally block runs at the break / continue and again at its proper place, and their catch is gone")
 }
